@@ -5,16 +5,16 @@
 (* set.  State [it |-> Seq(item) (injective), term |-> BOOLEAN].           *)
 (* Operands of set operations are given as the SEQUENCE in which they      *)
 (* iterate (results are ordered by first appearance in self, then in the   *)
-(* operands).  99 = None (omitted slice bound / step / index).             *)
+(* operands).  1000000 = None (omitted slice bound / step / index).             *)
 (***************************************************************************)
 EXTENDS Naturals, Integers, Sequences, FiniteSets, SequencesExt
 
-NONE == 99
+NONE == 1000000
 Elems(s) == {s[i] : i \in 1..Len(s)}
-RECURSIVE Dedup(_, _)
-Dedup(s, seen) == IF s = <<>> THEN <<>>
-                  ELSE IF Head(s) \in seen THEN Dedup(Tail(s), seen)
-                  ELSE <<Head(s)>> \o Dedup(Tail(s), seen \cup {Head(s)})
+(* first occurrences, in order, of the elements of s not in seen (no recursion: sequences get long in traces) *)
+Dedup(s, seen) == LET keep == {i \in 1..Len(s) : s[i] \notin seen /\ \A j \in 1..(i - 1) : s[j] # s[i]}
+                      ks == SetToSortSeq(keep, <)
+                  IN [m \in 1..Len(ks) |-> s[ks[m]]]
 RECURSIVE Cat(_)
 Cat(ss) == IF ss = <<>> THEN <<>> ELSE Head(ss) \o Cat(Tail(ss))
 Rev(s) == [i \in 1..Len(s) |-> s[Len(s) + 1 - i]]
